@@ -8,8 +8,16 @@
    and the CPS search [findk] the extracted model runs).
    What is NOT proved here (claimed partial): that the PARSER builds a [ci_closed] tree for every
    pattern compiled with IgnoreCase, and that changing the case of pattern letters yields the same
-   tree.  That half is covered by the metamorphic leg c20-case on the real engine (sampled) and by
-   the class theorems of C16.
+   tree.  That half is covered by the metamorphic leg c20-case on the real engine (sampled), by
+   the class theorems of C16, and - second half of this file - by
+     (a) translation validation: leg c20-closed exports the tree the real parser+optimiser built for
+         each generated IgnoreCase pattern and the PROVED checker [ci_closedb] decides the hypothesis
+         for that tree inside the extracted model; C20_instance_find_invariant says what a passing
+         instance means;
+     (b) general theorems for the two leaf kinds the parser creates from pattern letters: the class of
+         a bracket expression (C20_class_leaf_closed_partial) and the single-letter unit
+         (C20_unit_leaf_closed), both for the relation "same unicode.SimpleFold orbit" on the
+         generated table of Model/FoldD.v.
 
    Definitions used below (Proofs/CaseProofs.v):
      sim_ok sim            := sim reflexive and symmetric (transitivity is never needed)
@@ -27,7 +35,11 @@
         Bol/Eol/EndZ                  caseless 10
         Boundary/Nonboundary          resp_b (is_word e);   ECMA variants: resp_b (is_eword e)
         everything else               no condition; inner nodes: all children closed *)
-From Verif Require Import Base.Prelude Model.Tree Model.Spec Proofs.CaseProofs.
+From Verif Require Import Base.Prelude Model.CharClass Model.FoldD
+  Proofs.CharClassRanges Proofs.CharClassProofs Proofs.CharClassElab Proofs.CharClassFold Proofs.CharClassFoldThm
+  Proofs.CharClassCi Proofs.CharClassCi4 Proofs.CharClassCi5.
+(* imported last: Spec.sem (not the class semantics CharClass.sem) is what [sem] means below *)
+From Verif Require Import Model.Tree Model.Spec Model.CaseLink Proofs.CaseProofs Proofs.CaseLinkProofs.
 
 (* Input-side invariance, full strength over trees/fuel/states, under the explicit leaf condition. *)
 Theorem C20_ci_input_invariant_partial :
@@ -166,4 +178,261 @@ Example C20_exact_backref_results_differ :
 Proof.
   cbv zeta. split; [apply case_ex_variant_b; vm_compute; reflexivity|].
   vm_compute. split; reflexivity.
+Qed.
+
+(* ================================================================================================
+   The link parser -> ci_closed.
+
+   Definitions (Proofs/CaseLinkProofs.v, Model/CaseLink.v):
+     pairs_sim pairs x y      := x = y \/ In (x, y) pairs \/ In (y, x) pairs
+     pair_member pairs x      := x occurs in some pair
+     oracles_agree_on P e e0  := set_in, lower, is_word, is_eword of e and e0 coincide on the runes satisfying P
+     orbit_sim x y            := x = y \/ (x is in the table dom_t /\ y is in x's SimpleFold orbit)
+                                 (fold_t / dom_t: unicode.SimpleFold of the Go toolchain on U+0000-U+024F, the plain
+                                  pairs of Latin-1/Greek/Cyrillic and their closure; compared with the toolchain by
+                                  leg c16-class-0 on every run)
+     unit_leaf                := parser.addUnitOne/addUnitNotone -> nodeWithCaseConversion -> reduce, as executable
+                                 model (compared with the real parser by leg c20-closed on ~1200 one-letter patterns)
+     elab                     := C16's model of scanCharSet + the node's case conversion (compared by legs c16-class-0..3) *)
+
+(* ---- (a) per instance ---- *)
+
+(* What a passing instance of leg c20-closed means.  e0 = the environment decoded from the shipped
+   oracle tables (any text), t = the exported tree, pairs = the shipped case pairs.  Then for EVERY
+   environment e (every input text, the real oracles) that agrees with the tables on the runes
+   occurring in the pairs, the hypothesis of the invariance theorems holds, hence every input e'
+   that differs from e only by exchanging members of the pairs gives identical results. *)
+Theorem C20_instance_find_invariant :
+  forall (pairs : list (Z * Z)) (e0 : env) (t : node),
+    ci_closedb pairs e0 t = true ->
+    forall e, oracles_agree_on (pair_member pairs) e e0 ->
+    ci_closed (pairs_sim pairs) e t /\
+    forall e', case_variant (pairs_sim pairs) e e' ->
+    forall fuel rtl start prevlen,
+      find e' fuel t rtl start prevlen = find e fuel t rtl start prevlen
+      /\ findk e' fuel t rtl start prevlen = findk e fuel t rtl start prevlen
+      /\ (forall p, attempt e' fuel t p = attempt e fuel t p)
+      /\ (forall s, Spec.sem e' fuel t s = Spec.sem e fuel t s).
+Proof. exact clink_instance_find_invariant. Qed.
+Print Assumptions C20_instance_find_invariant.
+
+(* the relation generated by a pair list satisfies the hypotheses of the earlier theorems, and the
+   checker is exact for it without side conditions *)
+Theorem C20_pairs_sim_checker :
+  forall (pairs : list (Z * Z)),
+    sim_ok (pairs_sim pairs) /\
+    forall e t, ci_closedb pairs e t = true <-> ci_closed (pairs_sim pairs) e t.
+Proof. intros pairs. split; [apply pairs_sim_ok | intros e t; apply clink_closedb_iff]. Qed.
+Print Assumptions C20_pairs_sim_checker.
+
+(* the checker consults the oracles only at members of the pairs *)
+Theorem C20_checker_reads_pair_members :
+  forall (pairs : list (Z * Z)) (e e0 : env),
+    oracles_agree_on (pair_member pairs) e e0 ->
+    forall t, ci_closedb pairs e t = ci_closedb pairs e0 t.
+Proof. exact clink_closedb_ext. Qed.
+Print Assumptions C20_checker_reads_pair_members.
+
+(* the leaf named in the replay text of a failing instance exists exactly when the checker rejects *)
+Theorem C20_first_open_consistent :
+  forall (pairs : list (Z * Z)) (e : env) (t : node),
+    ci_first_open pairs e t = [] <-> ci_closedb pairs e t = true.
+Proof. exact clink_first_open_nil. Qed.
+Print Assumptions C20_first_open_consistent.
+
+(* ---- (b) general leaf theorems ---- *)
+
+Theorem C20_orbit_sim_ok :
+  sim_ok orbit_sim /\
+  (forall x y, ascii_sim x y -> orbit_sim x y) /\
+  (forall pairs, pairs_in_orbits pairs = true -> forall x y, pairs_sim pairs x y -> orbit_sim x y) /\
+  (forall (sim sim' : Z -> Z -> Prop), (forall x y, sim' x y -> sim x y) ->
+     (forall f, resp_b sim f -> resp_b sim' f) /\ (forall c, caseless sim c -> caseless sim' c)).
+Proof.
+  split; [exact orbit_sim_ok|]. split; [exact clink_ascii_sub_orbit|]. split; [exact clink_pairs_sub_orbit|].
+  intros sim sim' H. split; [intros f; apply clink_resp_b_mono, H | intros c; apply clink_caseless_mono, H].
+Qed.
+Print Assumptions C20_orbit_sim_ok.
+
+(* all plain upper/lower pairs of the claimed domain (Model/FoldD.pair_dom: the letters of ASCII, Latin-1,
+   Greek and Cyrillic whose fold orbit is exactly {lower, upper}, 3xx pairs) lie inside orbit_sim, so the two
+   leaf theorems below apply to the property's own relation *)
+Theorem C20_plain_pairs_in_orbit_sim :
+  (forall x, In x pair_dom -> orbit_sim x (fold_t x) /\ pairs_sim pair_dom_pairs x (fold_t x)) /\
+  (forall x y, pairs_sim pair_dom_pairs x y -> orbit_sim x y).
+Proof.
+  assert (H : forall x y, pairs_sim pair_dom_pairs x y -> orbit_sim x y)
+    by exact (clink_pairs_sub_orbit pair_dom_pairs clink_pair_dom_in_orbits).
+  split; [|exact H]. intros x Hx.
+  assert (P : pairs_sim pair_dom_pairs x (fold_t x)).
+  { right. left. unfold pair_dom_pairs. apply in_map_iff. exists x. split; [reflexivity|exact Hx]. }
+  split; [apply H, P | exact P].
+Qed.
+Print Assumptions C20_plain_pairs_in_orbit_sim.
+
+(* The Set-leaf condition of ci_closed holds for the class the parser builds for ANY bracket expression
+   under IgnoreCase (alone or with ECMAScript / RE2), negated classes and nested subtraction included:
+   it does not distinguish two runes of one SimpleFold orbit.
+   PARTIAL, exactly as C16_char_in_denote_partial_ignorecase on which it rests:
+     - oracles agree with the generated table on dom_t; the related runes lie in dom_t (orbit_sim);
+     - ci_syn_ok: code-point members in good_dom (dom_t without U+00D7, U+0130, U+1E9E), positive
+       ASCII-table shorthands / POSIX names, no NEGATED cased-letter category (known finding
+       ci_negated_case_category: (?i)\P{Lu} matches everything - which is case-closed, but outside C16's
+       characterisation);
+     - syn_cats_resp: every Unicode category named in the expression does not distinguish runes of one
+       orbit (Ll/Lu/Lt only as their union, which is how IgnoreCase uses them).  This is a fact about
+       Unicode, not about the engine; it FAILS for block/script names (\p{IsLatin-1Supplement} contains
+       U+00FF but not U+0178), which are therefore outside the claim. *)
+Theorem C20_class_leaf_closed_partial :
+  forall (cat_in : Z -> Z -> bool) (simple_fold to_lower : Z -> Z),
+    (forall x, In x dom_t -> simple_fold x = fold_t x /\ to_lower x = lower_t x) ->
+    forall (o : opts) (s : csyn) (c : cls),
+      o_ci o = true -> wf_syn s -> ci_syn_ok o s -> syn_cats_resp cat_in o orbit_sim s ->
+      elab cat_in simple_fold to_lower orbit_fuel s o = Ok c ->
+      resp_b orbit_sim (char_in cat_in c) /\
+      forall (e : env) (sid o' : Z), (forall x, set_in e sid x = char_in cat_in c x) ->
+        ci_closed orbit_sim e (NChar CSet o' sid).
+Proof.
+  intros cat_in sf tl Hag o s c Hci Hw Hok Hc He.
+  pose proof (clink_class_resp cat_in sf tl Hag o Hci s c Hw Hok Hc He) as H.
+  split; [exact H|]. intros e sid o' Hset x y Hxy. cbn. rewrite !Hset. apply H, Hxy.
+Qed.
+Print Assumptions C20_class_leaf_closed_partial.
+
+(* The category hypothesis cannot be dropped: the statement without syn_cats_resp is refuted on the faithful
+   model by a category whose table is not closed under case and whose NAME is not one of "Ll" "Lu" "Lt".
+   Real instances: (1) until repair 858f498 the long aliases Uppercase_Letter / Lowercase_Letter /
+   Titlecase_Letter, which the engine filed under their own names and therefore did not widen under IgnoreCase:
+   (?i)\p{Uppercase_Letter} matched "A" but not "a" although (?i)\p{Lu} matches both (addCategory compared the
+   spelling instead of the table; found by this proof attempt, now in the regression corpus of leg c20-closed;
+   the harness gives the three aliases the cased-letter ids 2/3/4);
+   (2) by design: scripts and derived properties ((?i)\p{Greek} matches U+03BC but not the micro sign U+00B5 of
+   the same fold orbit). *)
+Definition C20_class_leaf_closed_full : Prop :=
+  forall (cat_in : Z -> Z -> bool) (simple_fold to_lower : Z -> Z),
+    (forall x, In x dom_t -> simple_fold x = fold_t x /\ to_lower x = lower_t x) ->
+    forall (o : opts) (s : csyn) (c : cls),
+      o_ci o = true -> wf_syn s -> ci_syn_ok o s ->
+      elab cat_in simple_fold to_lower orbit_fuel s o = Ok c ->
+      resp_b orbit_sim (char_in cat_in c).
+
+Theorem C20_class_leaf_closed_refuted : ~ C20_class_leaf_closed_full.
+Proof.
+  intros H.
+  (* category 16 = "the upper-case ASCII letters" under a name the engine does not treat as a cased-letter category *)
+  set (cat := fun name ch : Z => (name =? 16) && (65 <=? ch) && (ch <=? 90)).
+  specialize (H cat fold_t lower_t (fun x _ => conj eq_refl eq_refl) (Opts true false false)
+                (CSyn false [IProp false 16] None)
+                (Cls [] [(false, 16)] None false false None) eq_refl).
+  assert (W : wf_syn (CSyn false [IProp false 16] None))
+    by (cbn [wf_syn]; split; [apply Forall_cons; [exact I|apply Forall_nil]|exact I]).
+  assert (K : ci_syn_ok (Opts true false false) (CSyn false [IProp false 16] None))
+    by (cbn [ci_syn_ok]; split; [apply Forall_cons; [reflexivity|apply Forall_nil]|exact I]).
+  specialize (H W K ltac:(vm_compute; reflexivity) 65 97).
+  assert (S : orbit_sim 65 97) by (right; split; apply zmem_In; vm_compute; reflexivity).
+  specialize (H S). vm_compute in H. discriminate.
+Qed.
+Print Assumptions C20_class_leaf_closed_refuted.
+
+(* The single-letter unit (a pattern letter outside brackets, quantified or not) under IgnoreCase, as
+   built by addUnitOne / addUnitNotone and left by reduce: for EVERY rune of the table the leaf is
+   ci-closed for the orbit relation - a rune with a fold partner becomes the class of its orbit
+   (possibly negated), a rune without one stays One / Notone and is case-less. *)
+Theorem C20_unit_leaf_closed :
+  forall (cat_in : Z -> Z -> bool) (simple_fold : Z -> Z),
+    (forall x, In x dom_t -> simple_fold x = fold_t x) ->
+    forall (notone : bool) (o ch : Z) (l : uleaf),
+      is_ci o = true -> In ch dom_t ->
+      unit_leaf cat_in simple_fold orbit_fuel notone o ch = Ok l ->
+      uleaf_closed orbit_sim cat_in l /\
+      (fold_t ch = ch -> l = UCh notone (Z.ldiff o OPT_CI) ch) /\
+      forall (e : env) (sid : Z),
+        (forall c o', l = USet o' c -> forall x, set_in e sid x = char_in cat_in c x) ->
+        ci_closed orbit_sim e (uleaf_node l sid).
+Proof.
+  intros cat_in sf Hag notone o ch l Hci Hd Hl.
+  destruct (clink_unit_leaf_closed cat_in sf Hag notone o ch l Hci Hd Hl) as [H1 H2].
+  split; [exact H1|]. split; [exact H2|].
+  intros e sid Hset. apply (clink_uleaf_node_closed orbit_sim cat_in l e sid H1 Hset).
+Qed.
+Print Assumptions C20_unit_leaf_closed.
+
+(* ---- non-vacuity of the link theorems ---- *)
+
+(* a passing instance: the tree of (?i)(a)[b-c]+12\1$ and the 26 ASCII pairs; the conclusion then holds
+   for every text and every ASCII case change of it *)
+Example C20_instance_witness :
+  ci_closedb ascii_pairs (case_ex_env []) case_ex_tree1 = true /\
+  forall w w' : list Z, case_variant (pairs_sim ascii_pairs) (case_ex_env w) (case_ex_env w') ->
+    forall fuel rtl start prevlen,
+      find (case_ex_env w') fuel case_ex_tree1 rtl start prevlen = find (case_ex_env w) fuel case_ex_tree1 rtl start prevlen.
+Proof.
+  assert (H : ci_closedb ascii_pairs (case_ex_env []) case_ex_tree1 = true) by (vm_compute; reflexivity).
+  split; [exact H|]. intros w w' Hv fuel rtl start prevlen.
+  destruct (C20_instance_find_invariant ascii_pairs (case_ex_env []) case_ex_tree1 H (case_ex_env w)) as [_ K].
+  { intros x _. cbn. auto. }
+  apply (K (case_ex_env w') Hv fuel rtl start prevlen).
+Qed.
+
+(* a failing instance names its leaf: Concat(Set[Aa], One 'b') - node 3 in preorder (0 Capture, 1 Concat, 2 Set), type 9 = One, rune 98 *)
+Example C20_first_open_witness :
+  ci_first_open ascii_pairs (case_ex_env []) (NCapture 0 0 (-1) (NConcat 0 [NChar CSet 0 0; NChar COne 0 98])) = [3; 9; 98].
+Proof. vm_compute. reflexivity. Qed.
+
+(* (?i)[a-z-[b]] and (?i)[^k] with the table as oracle: the classes the parser builds, and they do not
+   distinguish k / K / U+212A KELVIN SIGN nor s / S / U+017F *)
+Example C20_class_leaf_witness :
+  let cat := fun (_ _ : Z) => false in
+  let o := Opts true false false in
+  let s1 := CSyn false [IRange 97 122] (Some (CSyn false [IRange 98 98] None)) in
+  let s2 := CSyn true [IRange 107 107] None in
+  wf_syn s1 /\ ci_syn_ok o s1 /\ syn_cats_resp cat o orbit_sim s1 /\
+  wf_syn s2 /\ ci_syn_ok o s2 /\ syn_cats_resp cat o orbit_sim s2 /\
+  orbit_sim 107 8490 /\ orbit_sim 115 383 /\
+  exists c1 c2, elab cat fold_t lower_t orbit_fuel s1 o = Ok c1 /\ elab cat fold_t lower_t orbit_fuel s2 o = Ok c2 /\
+    map (char_in cat c1) [107; 75; 8490; 115; 383; 98; 66] = [true; true; true; true; true; false; false] /\
+    map (char_in cat c2) [107; 75; 8490; 115] = [false; false; false; true].
+Proof.
+  cbn zeta.
+  assert (G : forall x, 0 <= x < 128 -> In x good_dom) by exact ascii_good.
+  repeat match goal with |- _ /\ _ => split end.
+  - cbn [wf_syn]. split; [apply Forall_cons; [unfold wf_item, max_rune; lia|apply Forall_nil]|].
+    split; [apply Forall_cons; [unfold wf_item, max_rune; lia|apply Forall_nil]|exact I].
+  - cbn [ci_syn_ok]. split; [apply Forall_cons; [cbn [ci_item_ok]; intros; apply G; lia|apply Forall_nil]|].
+    split; [apply Forall_cons; [cbn [ci_item_ok]; intros; apply G; lia|apply Forall_nil]|exact I].
+  - cbn [syn_cats_resp]. split; [apply Forall_cons; [exact I|apply Forall_nil]|].
+    split; [apply Forall_cons; [exact I|apply Forall_nil]|exact I].
+  - cbn [wf_syn]. split; [apply Forall_cons; [unfold wf_item, max_rune; lia|apply Forall_nil]|exact I].
+  - cbn [ci_syn_ok]. split; [apply Forall_cons; [cbn [ci_item_ok]; intros; apply G; lia|apply Forall_nil]|exact I].
+  - cbn [syn_cats_resp]. split; [apply Forall_cons; [exact I|apply Forall_nil]|exact I].
+  - right. split; apply zmem_In; vm_compute; reflexivity.
+  - right. split; apply zmem_In; vm_compute; reflexivity.
+  - eexists. eexists. split; [vm_compute; reflexivity|]. split; [vm_compute; reflexivity|].
+    split; vm_compute; reflexivity.
+Qed.
+
+(* the unit: (?i)a -> Set [Aa]; (?i)1 stays One; U+01C5 (titlecase, orbit of three) -> Set [U+01C4-U+01C6] *)
+Example C20_unit_leaf_witness :
+  let cat := fun (_ _ : Z) => false in
+  unit_leaf cat fold_t orbit_fuel false 1 97 = Ok (USet 0 (Cls [(65, 65); (97, 97)] [] None false false None)) /\
+  unit_leaf cat fold_t orbit_fuel false 65 49 = Ok (UCh false 64 49) /\
+  unit_leaf cat fold_t orbit_fuel false 1 453 = Ok (USet 0 (Cls [(452, 454)] [] None false false None)) /\
+  In 97 dom_t /\ In 49 dom_t /\ In 453 dom_t.
+Proof. cbn zeta. repeat split; try (vm_compute; reflexivity); apply zmem_In; vm_compute; reflexivity. Qed.
+
+(* Before repair e0fcd53 the parser left U+01C5 as One (IsLower||IsUpper is false for a titlecase letter):
+   that leaf is not case-less for the orbit relation, the checker rejects it, and the two inputs
+   "\u01C5" / "\u01C6" (ToLower of each other's orbit) give different results - the defect this link found. *)
+Example C20_old_titlecase_unit_not_closed :
+  ~ caseless orbit_sim 453 /\
+  ci_closedb [(454, 453)] (case_ex_env []) (NChar COne 0 453) = false /\
+  case_variant orbit_sim (case_ex_env [453]) (case_ex_env [454]) /\
+  find (case_ex_env [453]) 10 (NChar COne 0 453) false 0 (-1) = Ok (Some {| pos := 1; caps := [] |}) /\
+  find (case_ex_env [454]) 10 (NChar COne 0 453) false 0 (-1) = Ok None.
+Proof.
+  split; [exact clink_old_titlecase_open|]. split; [vm_compute; reflexivity|].
+  split; [|vm_compute; split; reflexivity].
+  unfold case_variant. cbn. repeat split; auto.
+  intros i Hi. unfold tlen, zlen in Hi. cbn in Hi. assert (i = 0) by lia. subst i. cbn.
+  apply (proj2 orbit_sim_ok). right. split; apply zmem_In; vm_compute; reflexivity.
 Qed.
